@@ -95,7 +95,7 @@ structure Inv (s : St) : Prop where
   log_cb : ∀ k : Nat, cbCount k s.log = firedOf s.reqs k
   notinst : s.installed = false → s.reqs = []
 
-theorem inv_init (inst : Bool) (m : Mode) (max : Nat) : Inv (St.init inst m max) := by
+theorem inv_init (inst : Bool) (m : Mode) (max : Nat) (g : Bool := false) : Inv (St.init inst m max g) := by
   refine ⟨?_, ?_, ?_, ?_, ?_, ?_⟩ <;> simp [St.init, getReq, cnt, cbCount, firedOf]
 
 end GoaktVerif.C16
